@@ -11,9 +11,11 @@ import (
 	"math/rand"
 	"sort"
 	"strings"
+	"time"
 
 	"github.com/cosmos/cosmos-sdk/baseapp"
 	"github.com/cosmos/cosmos-sdk/types/query"
+	gogotypes "github.com/cosmos/gogoproto/types"
 
 	basetypes "github.com/regen-network/regen-ledger/x/ecocredit/v3/base/types/v1"
 	baskettypes "github.com/regen-network/regen-ledger/x/ecocredit/v3/basket/types/v1"
@@ -35,6 +37,7 @@ type qresult struct {
 	Limit  int      `json:"limit"`
 	Offset int      `json:"offset"`
 	Items  []string `json:"items"`
+	Attrs  []qattr  `json:"attrs"` // attributes reported for the returned elements (where abstracted)
 	Total  int      `json:"total"` // -1 when not reported
 	Pages  int      `json:"pages"`
 	Err    bool     `json:"err"`
@@ -42,8 +45,25 @@ type qresult struct {
 	Panic  bool     `json:"panic"`
 }
 
+type qattr struct {
+	K string `json:"k"`
+	V string `json:"v"`
+}
+
+// an element may be abstracted to "id\tattributes": split into the item and its attributes
+func (res *qresult) take(items []string) {
+	for _, it := range items {
+		if i := strings.IndexByte(it, '\t'); i >= 0 {
+			res.Items = append(res.Items, it[:i])
+			res.Attrs = append(res.Attrs, qattr{K: it[:i], V: it[i+1:]})
+		} else {
+			res.Items = append(res.Items, it)
+		}
+	}
+}
+
 func walkPages(ctx context.Context, in qinst, mode string, limit int) (res qresult) {
-	res = qresult{Q: in.q, Arg: in.arg, Mode: mode, Limit: limit, Items: []string{}, Total: -1}
+	res = qresult{Q: in.q, Arg: in.arg, Mode: mode, Limit: limit, Items: []string{}, Attrs: []qattr{}, Total: -1}
 	defer func() {
 		if p := recover(); p != nil {
 			res.Err, res.ErrMsg, res.Panic = true, fmt.Sprintf("panic: %v", p), true
@@ -55,7 +75,7 @@ func walkPages(ctx context.Context, in qinst, mode string, limit int) (res qresu
 			res.Err, res.ErrMsg = true, firstLine(err.Error())
 			return res
 		}
-		res.Items = append(res.Items, items...)
+		res.take(items)
 		res.Pages = 1
 		if pg != nil && len(pg.NextKey) != 0 {
 			res.ErrMsg = "more than one default page"
@@ -70,7 +90,7 @@ func walkPages(ctx context.Context, in qinst, mode string, limit int) (res qresu
 			res.Err, res.ErrMsg = true, firstLine(err.Error())
 			return res
 		}
-		res.Items = append(res.Items, items...)
+		res.take(items)
 		res.Pages = 1
 		if pg != nil {
 			res.Total = int(pg.Total)
@@ -101,7 +121,7 @@ func walkPages(ctx context.Context, in qinst, mode string, limit int) (res qresu
 			return res
 		}
 		res.Pages++
-		res.Items = append(res.Items, items...)
+		res.take(items)
 		if page == 0 && pg != nil {
 			res.Total = int(pg.Total)
 		}
@@ -124,24 +144,34 @@ func (r *runner) queryInstances(st *State) []qinst {
 	var out []qinst
 	add := func(q, arg string, fn pageFn) { out = append(out, qinst{q, arg, fn}) }
 
+	tickOf := func(ts *gogotypes.Timestamp) string {
+		if ts == nil {
+			return "nil"
+		}
+		t, ok := TimeTick(time.Unix(ts.Seconds, int64(ts.Nanos)).UTC())
+		if !ok {
+			return "offlattice"
+		}
+		return fmt.Sprint(t)
+	}
 	batchItems := func(bs []*basetypes.BatchInfo) []string {
 		var o []string
 		for _, b := range bs {
-			o = append(o, b.Denom)
+			o = append(o, b.Denom+"\t"+strings.Join([]string{NameOfBech32(b.Issuer), b.ProjectId, b.Metadata, fmt.Sprint(b.Open), tickOf(b.StartDate), tickOf(b.EndDate)}, "|"))
 		}
 		return o
 	}
 	classItems := func(cs []*basetypes.ClassInfo) []string {
 		var o []string
 		for _, c := range cs {
-			o = append(o, c.Id)
+			o = append(o, c.Id+"\t"+strings.Join([]string{NameOfBech32(c.Admin), c.Metadata, c.CreditTypeAbbrev}, "|"))
 		}
 		return o
 	}
 	projItems := func(ps []*basetypes.ProjectInfo) []string {
 		var o []string
 		for _, p := range ps {
-			o = append(o, p.Id)
+			o = append(o, p.Id+"\t"+strings.Join([]string{NameOfBech32(p.Admin), p.ClassId, p.Jurisdiction, p.Metadata, p.ReferenceId}, "|"))
 		}
 		return o
 	}
@@ -222,7 +252,18 @@ func (r *runner) queryInstances(st *State) []qinst {
 		}
 		var o []string
 		for _, b := range res.BasketsInfo {
-			o = append(o, b.BasketDenom)
+			crit := "none:0"
+			if d := b.DateCriteria; d != nil {
+				switch {
+				case d.MinStartDate != nil:
+					crit = "min:" + tickOf(d.MinStartDate)
+				case d.StartDateWindow != nil:
+					crit = "window:" + fmt.Sprint(int64(time.Duration(d.StartDateWindow.Seconds)*time.Second/tickDur))
+				case d.YearsInThePast != 0:
+					crit = "years:" + fmt.Sprint(d.YearsInThePast)
+				}
+			}
+			o = append(o, b.BasketDenom+"\t"+strings.Join([]string{b.Name, b.CreditTypeAbbrev, fmt.Sprint(b.DisableAutoRetire), NameOfBech32(b.Curator), crit}, "|"))
 		}
 		return o, res.Pagination, nil
 	})
